@@ -1415,11 +1415,17 @@ func parsePublicKey(algo PublicKeyAlgorithm, keyData *publicKeyInfo) (interface{
 		if len(p) > ed25519.PublicKeySize {
 			return nil, errors.New("x509: trailing data after Ed25519 data")
 		}
+		if len(p) < ed25519.PublicKeySize {
+			return nil, errors.New("x509: truncated Ed25519 public key")
+		}
 		return p, nil
 	case X25519:
 		p := X25519PublicKey(asn1Data)
 		if len(p) > 32 {
 			return nil, errors.New("x509: trailing data after X25519 public key")
+		}
+		if len(p) < 32 {
+			return nil, errors.New("x509: truncated X25519 public key")
 		}
 		return p, nil
 	default:
